@@ -5,7 +5,10 @@ use crate::{
     semantic::{
         function,
         type_registry::TypeRegistry,
-        types::{Function, FunctionBody, ItemState, ItemStateResolved, Type, Visibility},
+        types::{
+            Function, FunctionBody, ItemCategory, ItemDefinitionInner, ItemState, ItemStateResolved,
+            Type, Visibility,
+        },
         SemanticState,
     },
     util,
@@ -451,6 +454,42 @@ pub fn build(
 
             if !inner.defaultable() {
                 anyhow::bail!("field `{name}` of type `{resolvee_path}` is not a defaultable type");
+            }
+        }
+    }
+
+    // `Copy` and `Clone` can only be derived when every field has them. Checked for the types that
+    // pyxis emits itself; extern types are supplied by the user.
+    if copyable || cloneable {
+        for region in &regions {
+            fn get_embedded_type_path(type_ref: &Type) -> Option<&ItemPath> {
+                match type_ref {
+                    Type::Raw(tp) => Some(tp),
+                    Type::Array(t, _) => get_embedded_type_path(t),
+                    _ => None,
+                }
+            }
+            let name = region.name.as_deref().unwrap_or("unnamed");
+            let Some(item) =
+                get_embedded_type_path(&region.type_ref).and_then(|p| semantic.type_registry.get(p))
+            else {
+                continue;
+            };
+            let Some(ItemStateResolved { inner, .. }) = item.resolved() else {
+                continue;
+            };
+            if item.category() != ItemCategory::Defined {
+                continue;
+            }
+            let (field_copyable, field_cloneable) = match inner {
+                ItemDefinitionInner::Type(td) => (td.copyable, td.cloneable),
+                ItemDefinitionInner::Enum(ed) => (ed.copyable, ed.cloneable),
+            };
+            if copyable && !field_copyable {
+                anyhow::bail!("field `{name}` of type `{resolvee_path}` is not a copyable type");
+            }
+            if cloneable && !field_cloneable {
+                anyhow::bail!("field `{name}` of type `{resolvee_path}` is not a cloneable type");
             }
         }
     }
